@@ -436,6 +436,14 @@ pub fn partition_ids<'a>() -> impl Parser<FrameStream<'a>, Output = HashSet<Part
             } => {
                 let data = str::from_utf8(data).ok()?;
 
+                // Inclusive range "<start>-<end>", as the client's
+                // subscribe_to_partitions emits it
+                if let Some((start, end)) = data.split_once('-') {
+                    let start: PartitionId = start.trim().parse().ok()?;
+                    let end: PartitionId = end.trim().parse().ok()?;
+                    return (start <= end).then(|| (start..=end).collect());
+                }
+
                 // Otherwise try comma-separated list
                 data.split(',')
                     .map(|part| part.trim().parse::<PartitionId>())
